@@ -447,6 +447,14 @@ func (c *C05Scn) lifecycle(y func(), pr *c05Probe) (outs []string, viol *Violati
 		var b0 []byte
 		if err0 == nil {
 			b0, err0 = safeMarshal(t0)
+			if err0 == errAborted {
+				return outs, nil
+			}
+			if err0 != nil {
+				// a trie that was built has a serialised form: without one there
+				// is no round trip at all
+				fail("marshal-failed", "Marshal", fmt.Sprintf("input %d (%s): NewSlimTrie succeeded but Marshal() of the trie fails", i, sp.summary()), "<bytes>, nil", clip(err0.Error(), 200))
+			}
 		}
 		for k := 0; k < 2; k++ {
 			var tk *trie.SlimTrie
@@ -609,6 +617,8 @@ func (c *C05Scn) lifecycle(y func(), pr *c05Probe) (outs []string, viol *Violati
 			entry := "direct"
 			if h.Op == "protounmarshal" {
 				entry = "proto"
+			} else if (hi+h.Src+len(c.Inputs)+len(c.History))%3 == 2 {
+				entry = "index" // through index.SlimIndex (embeds the trie)
 			}
 			buf := read(i)
 			var err error
